@@ -322,6 +322,14 @@ theorem ply_ascii_prefix_bytes (L : Lex) (h : Hdr) (vls fls : List (List Tok))
         simp [hf, mkLine])
     simpa using this
 
+/-- the whole ASCII file: after a complete header the reader is the body reader on what the scanner
+    delivers from the remaining bytes — so `ply_ascii_prefix_bytes` / `ply_ascii_bytes_complete` speak
+    about `readPly` on `headerText ls ++ (cut body text)`, and `ply_header_cut` covers the rest -/
+theorem ply_ascii_file (L : Lex) (h : Hdr) (hfmt : h.fmt = .ascii) (ls : List (List UInt8)) (hls : HeaderLines ls)
+    (bodyText : List UInt8) :
+    readPly L h (headerText ls ++ bodyText) = (readPlyAsciiBody L h (scanLines bodyText)).map .ascii := by
+  simp only [readPly, skipHeader_full ls hls, hfmt]
+
 /-! ## PTS (line/token level) -/
 
 /-- a PTS file: the count line, then `n` point lines of `fpp` fields each -/
